@@ -12,21 +12,38 @@ int, float incl. ±inf / nan, str, None, other) with Python's comparison semanti
 code *after* the repair F3 (`repaired = true`: finite bounds, positive start for log grids). Float
 representability (|x| > 1e38 in float32, spacing below the float resolution) is outside exact arithmetic. -/
 
-/-- decision logic of the continuous-grid validation, stated outright -/
+/-- decision logic of the continuous-grid validation, stated outright (`finiteAsFloat`: a float that is neither ±inf nor
+nan, or an int that can be converted to a float - repairs F3 and F11) -/
 theorem C16_continuous_accept_iff (start stop n : PyVal) :
     validateContinuous start stop n true = true ↔
       (start.isNumber = true ∧ stop.isNumber = true ∧ n.isInt = true ∧ 1 ≤ n.asInt ∧
-        start.toFloat.ge stop.toFloat = false ∧ start.toFloat.isFinite = true ∧ stop.toFloat.isFinite = true) := by
+        start.toFloat.ge stop.toFloat = false ∧ start.finiteAsFloat = true ∧ stop.finiteAsFloat = true) := by
   unfold validateContinuous
   cases h1 : start.isNumber <;> cases h2 : stop.isNumber <;> cases h3 : n.isInt <;>
-    cases h4 : start.toFloat.ge stop.toFloat <;> cases h5 : start.toFloat.isFinite <;>
-    cases h6 : stop.toFloat.isFinite <;> simp
+    cases h4 : start.toFloat.ge stop.toFloat <;> cases h5 : start.finiteAsFloat <;>
+    cases h6 : stop.finiteAsFloat <;> simp
+
+/-- a bound that is finite as a float is a rational number in the model -/
+theorem finiteAsFloat_toFloat (v : PyVal) (h : v.finiteAsFloat = true) : v.toFloat.isFinite = true := by
+  cases v with
+  | float f => simpa [PyVal.finiteAsFloat, PyVal.toFloat] using h
+  | int i => rfl
+  | bool b => rfl
+  | _ => simp [PyVal.finiteAsFloat] at h
+
+/-- an int bound is accepted only below the largest float: `|i| < floatIntBound = 2^1024 - 2^970` -/
+theorem C16_int_bound_in_float_range (i : Int) (stop n : PyVal) (h : validateContinuous (.int i) stop n true = true) :
+    i.natAbs < floatIntBound := by
+  rw [C16_continuous_accept_iff] at h
+  simpa [PyVal.finiteAsFloat] using h.2.2.2.2.2.1
 
 /-- accepted bounds are finite rationals with `start < stop` -/
 theorem C16_accepted_bounds (start stop n : PyVal) (h : validateContinuous start stop n true = true) :
     ∃ a b : Rat, start.toFloat = .fin a ∧ stop.toFloat = .fin b ∧ a < b := by
   rw [C16_continuous_accept_iff] at h
   obtain ⟨_, _, _, _, hge, hfa, hfb⟩ := h
+  have hfa := finiteAsFloat_toFloat _ hfa
+  have hfb := finiteAsFloat_toFloat _ hfb
   cases ha : start.toFloat <;> simp [ha, PyFloat.isFinite] at hfa
   cases hb : stop.toFloat <;> simp [hb, PyFloat.isFinite] at hfb
   rename_i a b
